@@ -19,7 +19,7 @@ EXTENDS Integers, Sequences, FiniteSets, TLC, Json
 
 CONSTANTS MaxSteps,   \* worlds per history
           MaxMut,     \* mutations between two committed worlds
-          Mode        \* "walk" | "resolve" | "listener"
+          Mode        \* "walk" | "resolve" | "listener" | "conflict"
 
 GwGroup == "gateway.networking.k8s.io"
 
@@ -109,8 +109,10 @@ DontCare(w, k, i) ==
     /\ w.rt[k].kind # "none"
     /\ (w.l[i].proto = "HTTP") # (w.rt[k].kind = "HTTPRoute")
 
-RtName(k) == IF k = 1 THEN "rt1" ELSE "rt2"
-RtPath(k) == IF k = 1 THEN "/p1" ELSE "/p2"
+(* the older route (slot 1) has the greater name: creation time, not the name, decides a conflict *)
+RtName(k) == IF k = 1 THEN "rtz" ELSE "rta"
+(* samepath: both routes declare the same path, so they conflict on every hostname they share *)
+RtPath(w, k) == IF k = 1 \/ w.samepath THEN "/p1" ELSE "/p2"
 HTTPBackend(w, k) == w.rt[k].ns \o "_" \o RtName(k) \o "__rule0"
 TCPBackend(w, k) == w.rt[k].ns \o "_" \o RtName(k) \o "__tcprule0"
 
@@ -119,7 +121,7 @@ RouteHostSet(n) == IF n = 0 THEN {"<default>"} ELSE IF n = 1 THEN {"h1.local"} E
 (* hostnames an admitted HTTPRoute gets through listener i: the listener hostname replaces the ones of the route *)
 HostsOf(w, k, i) == IF w.l[i].host = "own" THEN {LHostOwn(i)} ELSE RouteHostSet(w.rt[k].hostnames)
 
-Out(w, k, i) == {[h |-> h, p |-> RtPath(k), ty |-> "prefix", s |-> HTTPBackend(w, k)] : h \in HostsOf(w, k, i)}
+Out(w, k, i) == {[h |-> h, p |-> RtPath(w, k), ty |-> "prefix", s |-> HTTPBackend(w, k)] : h \in HostsOf(w, k, i)}
 
 HTTPSlots(w) == {k \in RouteSlots : w.rt[k].kind = "HTTPRoute"}
 TCPSlots(w)  == {k \in RouteSlots : w.rt[k].kind = "TCPRoute"}
@@ -133,16 +135,29 @@ TCPOwner(w, i) ==
 (* Layer A: what a recorded observation must satisfy.
    obs = [routes : set of [h,p,ty,s], tcp : set of [port, s], backs : set of [s, grp : seq of seq of weights]] *)
 
+(* HTTP rules are judged per (hostname, path): the oldest route admitted for it owns it; a key that a don't-care pair
+   could produce is not judged *)
+KeyOfOut(o) == [h |-> o.h, p |-> o.p]
+PairKeys(w, k, i) == {KeyOfOut(o) : o \in Out(w, k, i)}
+AllKeys(w) == UNION {PairKeys(w, k, i) : k \in HTTPSlots(w), i \in ListenerIds}
+KeyDontCare(w, key) == \E k \in HTTPSlots(w), i \in ListenerIds : DontCare(w, k, i) /\ key \in PairKeys(w, k, i)
+MustHave(w, k, key) == \E i \in ListenerIds : ~DontCare(w, k, i) /\ AdmittedPair(w, k, i) /\ key \in PairKeys(w, k, i)
+KeyOwner(w, key) ==
+    LET c == {k \in HTTPSlots(w) : MustHave(w, k, key)} IN
+    IF c = {} THEN 0 ELSE CHOOSE k \in c : \A k2 \in c : k <= k2
+ObservedFor(obs, key) == {o.s : o \in {x \in obs.routes : x.h = key.h /\ x.p = key.p}}
+
+(* an admitted pair's rule is missing *)
 MissingRule(w, obs) ==
-    {x \in [k : HTTPSlots(w), i : ListenerIds] :
-        ~DontCare(w, x.k, x.i) /\ AdmittedPair(w, x.k, x.i) /\ ~(Out(w, x.k, x.i) \subseteq obs.routes)}
-
+    {key \in AllKeys(w) : ~KeyDontCare(w, key) /\ KeyOwner(w, key) # 0 /\ ObservedFor(obs, key) = {}}
+(* a rule nobody is admitted for *)
 LeakedRule(w, obs) ==
-    {x \in [k : HTTPSlots(w), i : ListenerIds] :
-        ~DontCare(w, x.k, x.i) /\ ~AdmittedPair(w, x.k, x.i) /\ Out(w, x.k, x.i) \cap obs.routes # {}}
-
-Unattributed(w, obs) ==
-    {o \in obs.routes : ~\E k \in HTTPSlots(w), i \in ListenerIds : o \in Out(w, k, i) /\ (AdmittedPair(w, k, i) \/ DontCare(w, k, i))}
+    {key \in AllKeys(w) : ~KeyDontCare(w, key) /\ KeyOwner(w, key) = 0 /\ ObservedFor(obs, key) # {}}
+(* the rule goes to another route than the oldest admitted one *)
+WrongOwner(w, obs) ==
+    {key \in AllKeys(w) : ~KeyDontCare(w, key) /\ KeyOwner(w, key) # 0 /\ ObservedFor(obs, key) # {}
+                          /\ ObservedFor(obs, key) # {HTTPBackend(w, KeyOwner(w, key))}}
+Unattributed(w, obs) == {o \in obs.routes : KeyOfOut(o) \notin AllKeys(w) \/ o.ty # "prefix"}
 
 TCPBad(w, obs) ==
     {i \in ListenerIds :
@@ -163,7 +178,7 @@ vars == <<w, hist, nmut>>
 Valid(x) == ~(x.l[1].host = "none" /\ x.l[2].host = "none")
 
 World0 == [class |-> "ours", label |-> [g |-> "web", r |-> "db"],
-           l |-> <<OpenL("HTTP"), OpenL("TCP")>>, rt |-> <<NoRoute, NoRoute>>]
+           l |-> <<OpenL("HTTP"), OpenL("TCP")>>, rt |-> <<NoRoute, NoRoute>>, samepath |-> FALSE]
 
 OneRoute(x, rt) == [x EXCEPT !.rt = <<rt, NoRoute>>]
 
@@ -178,11 +193,21 @@ ListenerWorlds ==
               MkRoute(k, n, <<[PlainRef EXCEPT !.section = sc]>>, 1, <<[s |-> 1, w |-> -1]>>)) :
         lg \in Labels, lr \in Labels, pr \in Protos, kd \in KindsVals, fr \in FromVals, k \in RouteKinds, n \in RouteNs, sc \in Sections}
 
+(* conflicts: two routes that declare the same path (or the same TCP port) through the same listeners *)
+ConflictWorlds ==
+    {[World0 EXCEPT !.samepath = sp, !.l = <<[OpenL("HTTP") EXCEPT !.host = h1], OpenL(p2)>>,
+                    !.rt = <<MkRoute(k1, n1, <<PlainRef>>, hn1, b1), MkRoute(k2, n2, <<PlainRef>>, hn2, b2)>>] :
+        sp \in BOOLEAN, h1 \in {"own", "none"}, p2 \in Protos, k1 \in RouteKinds, k2 \in RouteKinds, n1 \in RouteNs, n2 \in RouteNs,
+        hn1 \in 0..2, hn2 \in 0..2,
+        b1 \in {<<[s |-> 1, w |-> 3], [s |-> 2, w |-> -1]>>, <<[s |-> 3, w |-> 2], [s |-> 2, w |-> 2]>>},
+        b2 \in {<<[s |-> 2, w |-> -1], [s |-> 1, w |-> 4], [s |-> 3, w |-> -1]>>, <<[s |-> 1, w |-> -1]>>}}
+
 Init ==
     /\ hist = <<>> /\ nmut = 0
     /\ CASE Mode = "walk" -> w = World0
          [] Mode = "resolve" -> w \in ResolveWorlds
          [] Mode = "listener" -> w \in ListenerWorlds
+         [] Mode = "conflict" -> w \in ConflictWorlds
 
 Mutate(x) == w' = x /\ x # w /\ Valid(x) /\ nmut' = nmut + 1 /\ UNCHANGED hist
 
@@ -199,6 +224,7 @@ SetListener ==
 AddRoute ==
     \E k \in RouteSlots, kd \in RouteKinds, n \in RouteNs, hn \in 0..2, b \in BackSeqs :
         w.rt[k].kind = "none" /\ Mutate([w EXCEPT !.rt[k] = MkRoute(kd, n, <<PlainRef>>, hn, b)])
+SetSamePath == Mutate([w EXCEPT !.samepath = ~@])
 DelRoute == \E k \in RouteSlots : w.rt[k].kind # "none" /\ Mutate([w EXCEPT !.rt[k] = NoRoute])
 SetRoute ==
     \E k \in RouteSlots :
@@ -219,7 +245,7 @@ Commit == /\ hist' = Append(hist, w) /\ nmut' = 0 /\ UNCHANGED w
 Next ==
     /\ Len(hist) < MaxSteps
     /\ \/ Mode = "walk" /\ nmut = 0 /\ PickClass
-       \/ Mode = "walk" /\ nmut > 0 /\ nmut <= MaxMut /\ (SetLabel \/ SetListener \/ AddRoute \/ DelRoute \/ SetRoute)
+       \/ Mode = "walk" /\ nmut > 0 /\ nmut <= MaxMut /\ (SetLabel \/ SetListener \/ AddRoute \/ DelRoute \/ SetRoute \/ SetSamePath)
        \/ (Mode # "walk" \/ nmut > 1) /\ Commit
 
 Spec == Init /\ [][Next]_vars
